@@ -24,12 +24,22 @@ def explicit_did_of(t, n):
 class Gen01(mut.Gen):
     special_share = 0.45
 
+    def do(self, op):
+        # a corrupted implementation (cycle in the node graph) must not hang the generator
+        import mut_ex
+        try:
+            with mut_ex.time_limit(5.0):
+                return super().do(op)
+        except mut_ex.OpTimeout:
+            return None
+
     def step(self):
         if self.rng.random() < self.special_share:
             k = self.rng.choice(["clone_pair", "clone_pair", "nested_clone", "nested_clone", "equal_distinct", "move_own",
                                  "move_near", "move_near", "remove_clones", "remove_keep", "remove_keep_clones", "remove_children",
                                  "rekey_group", "rekey_group", "split_group", "del_clone", "copy_branch", "twins", "twins", "twin_route",
-                                 "twin_route", "twin_route", "move_cross", "move_cross"])
+                                 "twin_route", "twin_route", "move_cross", "move_cross", "deepen_then_own", "deepen_then_own",
+                                 "deepen_then_own", "promote_then_own"])
             try:
                 if getattr(self, "sp_" + k)():
                     return
@@ -181,6 +191,66 @@ class Gen01(mut.Gen):
         ids = mut.live_ids(w, tti)
         tgt = rng.choice(ids) if ids and rng.random() < 0.85 else 0
         self.do(["move", ti, w.rel(n), tti, tgt, self.before_arg(tti, tgt)])
+        return True
+
+    def _deepen(self, ti, a):
+        """move a (with its branch) one or more levels deeper: below a node outside its branch; True if a move was made"""
+        w, rng = self.w, self.rng
+        t = w.trees[ti]
+        if isinstance(t, TypedTree):
+            return False
+        branch = [a] + self._subtree(a)
+        depth = lambda x: 0 if x is t._root else 1 + depth(x._parent)  # noqa: E731
+        outside = [x for x in self._tree_nodes(ti) if not any(x is b for b in branch) and x is not a._parent
+                   and depth(x) >= depth(a) - 1 + 1 and a._data_id not in [c._data_id for c in (x._children or [])]]
+        if not outside:
+            return False
+        s = rng.choice(outside)
+        self.do(["move", ti, w.rel(a), ti, w.rel(s), rng.choice([None, None, True, 0])])
+        return True
+
+    def sp_deepen_then_own(self):
+        """an ancestor is moved deeper (once or twice, its descendants ride along), then it is moved into its OWN branch
+        (child, grandchild, deepest descendant): has to be refused however the depths were remembered"""
+        w, rng = self.w, self.rng
+        ti = self.pick_tree()
+        a = self._pick(ti, lambda x: bool(x._children))
+        if a is None:
+            return False
+        made = self._deepen(ti, a)
+        if made and rng.random() < 0.4:
+            self._deepen(ti, a)
+        if rng.random() < 0.3:                      # a descendant moves first as well (its own entry is fresh, the others are not)
+            sub = self._subtree(a)
+            if len(sub) > 1:
+                x, y = rng.sample(sub, 2)
+                self.do(["move", ti, w.rel(x), ti, w.rel(y), None])
+        sub = self._subtree(a)
+        if not sub:
+            return made
+        for tgt in rng.sample(sub, min(len(sub), 2)):
+            self.do(["move", ti, w.rel(a), ti, w.rel(tgt), self.before_arg(ti, w.rel(tgt))])
+        return True
+
+    def sp_promote_then_own(self):
+        """remove(keep_children=True) promotes a whole level; afterwards a promoted node is moved below its own descendants,
+        and a node that stayed is moved into the promoted branch and back"""
+        w, rng = self.w, self.rng
+        ti = self.pick_tree()
+        t = w.trees[ti]
+        if isinstance(t, TypedTree):
+            return False
+        n = self._pick(ti, lambda x: any(c._children for c in (x._children or [])))
+        if n is None:
+            return False
+        kids = [c for c in n._children if c._children]
+        self.do(["remove", ti, w.rel(n), True, False])
+        c = rng.choice(kids)
+        if c._tree is None:
+            return True
+        sub = self._subtree(c)
+        if sub:
+            self.do(["move", ti, w.rel(c), ti, w.rel(rng.choice(sub)), None])
         return True
 
     def sp_move_own(self):
@@ -427,3 +497,52 @@ def gen_cross_move(typed=(False,), quick=False):
                     for b in ([None, True] if quick else [None, True, False, 0, 1, -1]) + [{"n": c} for c in ch[:1]]:
                         alts.append(["move", ti, n, tti, tgt, b])
         yield dict(univ=univ, setup=setup, alts=alts, label="cross-move" + ("/typed" if ty else ""), n=7)
+
+
+# ---------------------------------------------------------------------------
+# move chains: on every forest with 3 (thorough 4) nodes, every legal first move that puts a node with children
+# deeper, then EVERY move (own-branch targets included) as alternatives.  Queries run between the steps
+# (mut_ex.sprinkle_queries), so anything remembered about depths / ancestry before the first move is in place.
+# ---------------------------------------------------------------------------
+def gen_move_chains(nmax=3):
+    import build as B
+    import common as H
+    for n in range(3, nmax + 1):
+        for shape in H.forests(n):
+            univ = [f"s:n{i}" for i in range(n)] + ["s:new"]
+            nodes = B.shape_to_nodes(shape, lambda i, d, s: (i, None, None))
+            base = [["new", False, None]] + mut.setup_ops(nodes, 0, False)
+            # structure by relative ids
+            kids = {0: []}
+            order = []
+
+            def go(p, lst):
+                for lbl, kind, did, ch in lst:
+                    me = len(order) + 1
+                    order.append(me)
+                    kids[p].append(me)
+                    kids[me] = []
+                    go(me, ch)
+
+            go(0, nodes)
+
+            def branch(x):
+                out = [x]
+                for c in kids[x]:
+                    out += branch(c)
+                return out
+
+            for a in order:
+                if not kids[a]:
+                    continue
+                for s_ in order:
+                    if s_ in branch(a) or a in kids[s_]:
+                        continue
+                    setup = base + [["move", 0, a, 0, s_, None]]
+                    alts = []
+                    for x in order:
+                        for tgt in [0] + order:
+                            alts.append(["move", 0, x, 0, tgt, None])
+                            if tgt in branch(x) and tgt != x:
+                                alts.append(["move", 0, x, 0, tgt, True])
+                    yield dict(univ=univ, setup=setup, alts=alts, label="move-chain", n=n)
